@@ -54,6 +54,7 @@ type FaultPlan struct {
 
 type Plan struct {
 	Fresh   bool        `json:"fresh,omitempty"` // the file does not exist at the start
+	Link    int         `json:"link,omitempty"`  // 1: every client names the file through a symbolic link; 2: every other client does
 	InitLen int         `json:"init_len"`
 	Tasks   []TaskPlan  `json:"tasks"`
 	Fault   *FaultPlan  `json:"fault,omitempty"`
@@ -86,6 +87,7 @@ func genPlan(t *rapid.T, tier string) any {
 	p := &Plan{}
 	p.Fresh = rapid.IntRange(0, 5).Draw(t, "fresh") == 0
 	p.InitLen = rapid.IntRange(0, len(lengths)-1).Draw(t, "initlen")
+	p.Link = rapid.SampledFrom([]int{0, 0, 0, 1, 2}).Draw(t, "link")
 	procs := rapid.IntRange(1, 3).Draw(t, "procs")
 	total := 0
 	for pr := 1; pr <= procs; pr++ {
@@ -252,6 +254,16 @@ func run(t *testing.T, plan any, keep bool) *simcheck.Outcome {
 	os.RemoveAll(dir)
 	os.MkdirAll(dir, 0o777)
 	path := filepath.Join(dir, "register")
+	link := filepath.Join(dir, "register-link")
+	if p.Link != 0 {
+		os.Symlink(path, link)
+	}
+	pathOf := func(client int) string {
+		if p.Link == 1 || p.Link == 2 && client%2 == 1 {
+			return link
+		}
+		return path
+	}
 	simos.Reset()
 	simtime.Reset()
 	simsys.Calls = 0
@@ -299,6 +311,7 @@ func run(t *testing.T, plan any, keep bool) *simcheck.Outcome {
 			concurrentOps++
 		}
 		defer func() { inflight-- }()
+		path := pathOf(client)
 		switch op.Kind {
 		case "read":
 			eid := invoke(client, input{kind: "read"})
@@ -550,7 +563,7 @@ var harness = &simcheck.Harness{
 	Property: "C07",
 	Level:    "exploration",
 	Rule: "rapid draws 1-3 simulated processes x 1-2 goroutines x 1-4 operations (Read, Write of a self-checking value of length 0..70000 fed in chunks, Transform producing a longer / shorter / same-length / unchanged value, a prefix of or an in-place extension of the slice it was given, or failing) " +
-		"on one file that exists (5 of 6) or is absent at the start; a third of the plans add one Transform in its own process whose k-th file operation fails or writes short then fails; thorough adds double faults; " +
+		"on one file that exists (5 of 6) or is absent at the start, named directly or (two plans in five) through a symbolic link by all or by every other client; a third of the plans add one Transform in its own process whose k-th file operation fails or writes short then fails; thorough adds double faults; " +
 		"torn transfers on/off; histories of at most 24 operations are checked with porcupine; non-trivial = some operation started while another was in flight; distinct by decision-trace hash",
 	Gen:     genPlan,
 	NewPlan: func() any { return &Plan{} },
